@@ -41,19 +41,33 @@ def never_returns_false(results):
     return not any(k[0] == 'return' and k[1] in (False, '?') for k in results)
 
 
-def compute_never_false(db, roots, rounds=6):
-    """monotone pre-pass: the set of rule-boundary functions whose own analysis shows they only return
-    true or leave by exception (must, raise, star, opt, success ...).  Recomputed from the current source."""
-    nf = set(); n = 0
-    changed = True
-    while changed and n < rounds:
-        changed = False; n += 1
-        for fn in roots:
-            if fn['u'] in nf: continue
-            try:
-                res, reps, steps = analyse(db, fn, frozenset(nf))
-            except (Budget, Unmodelled):
-                continue
-            if res and never_returns_false(res):
-                nf.add(fn['u']); changed = True
-    return frozenset(nf), n
+class Analyzer:
+    """one analysis per function, on demand; `usr in analyzer` answers "this rule-boundary function never returns
+    false" (only true or an exception: must, raise, star, opt, success ...), computed from the callee's own
+    analysis (memoised; a callee that is being analysed further up the stack is conservatively 'may fail')."""
+
+    def __init__(self, db, monitor_cls=RewindMonitor, maxsteps=400000):
+        self.db = db; self.cache = {}; self.busy = set(); self.monitor_cls = monitor_cls; self.maxsteps = maxsteps
+
+    def get(self, fn):
+        u = fn['u']
+        if u in self.cache: return self.cache[u]
+        self.busy.add(u)
+        try:
+            r = analyse(self.db, fn, self, self.monitor_cls, self.maxsteps)
+        except Budget:
+            r = ('budget', None, 0)
+        except Unmodelled as e:
+            r = ('unmodelled', str(e), 0)
+        finally:
+            self.busy.discard(u)
+        self.cache[u] = r
+        return r
+
+    def __contains__(self, u):
+        if u in self.busy: return False
+        fn = self.db.get(u)
+        if fn is None or fn.get('body') is None or not is_match_root(fn): return False
+        r = self.get(fn)
+        if not isinstance(r[0], collections.Counter) or not r[0]: return False
+        return never_returns_false(r[0])
